@@ -49,18 +49,38 @@ if not os.path.isdir(dst):
     json.dump(meta, open(os.path.join(dst, "meta.json"), "w"), indent=1, ensure_ascii=False)
 
 meta = json.load(open(os.path.join(dst, "meta.json")))
-st = subprocess.run("git -C /repo status --porcelain", shell=True, capture_output=True, text=True).stdout.strip()
-assert st == "", "/repo is not clean:\n" + st
-r = subprocess.run(["git", "-C", "/repo", "apply", os.path.join(dst, "patch.diff")], capture_output=True, text=True)
-if r.returncode != 0:
-    r = subprocess.run(["git", "-C", "/repo", "apply", "--3way", os.path.join(dst, "patch.diff")], capture_output=True, text=True)
-    assert r.returncode == 0, r.stderr
+OVERLAY = os.environ.get("SEED_OVERLAY") == "1"
+overlay_env = {}
+if OVERLAY:
+    # same effect without touching /repo (other work is using it): the patched files of a
+    # scratch worktree are substituted through go's -overlay (driver: VERIF_OVERLAY)
+    wt = "/tmp/sv/ov-%s-%s" % (cid, mn)
+    subprocess.run("git -C /repo worktree remove --force %s; rm -rf %s; git -C /repo worktree add -q --detach %s HEAD" % (wt, wt, wt), shell=True, capture_output=True)
+    r = subprocess.run(["git", "-C", wt, "apply", os.path.join(dst, "patch.diff")], capture_output=True, text=True)
+    if r.returncode != 0:
+        r = subprocess.run(["git", "-C", wt, "apply", "--3way", os.path.join(dst, "patch.diff")], capture_output=True, text=True)
+        assert r.returncode == 0, r.stderr
+    files = subprocess.run("git -C %s status --porcelain" % wt, shell=True, capture_output=True, text=True).stdout.split("\n")
+    repl = {}
+    for l in files:
+        if len(l) > 3 and l[3:].endswith(".go"):
+            repl["/repo/" + l[3:]] = wt + "/" + l[3:]
+    ov = "/tmp/sv/ov-%s-%s.json" % (cid, mn)
+    json.dump({"Replace": repl}, open(ov, "w"))
+    overlay_env = {"VERIF_OVERLAY": ov}
+else:
+    st = subprocess.run("git -C /repo status --porcelain", shell=True, capture_output=True, text=True).stdout.strip()
+    assert st == "", "/repo is not clean:\n" + st
+    r = subprocess.run(["git", "-C", "/repo", "apply", os.path.join(dst, "patch.diff")], capture_output=True, text=True)
+    if r.returncode != 0:
+        r = subprocess.run(["git", "-C", "/repo", "apply", "--3way", os.path.join(dst, "patch.diff")], capture_output=True, text=True)
+        assert r.returncode == 0, r.stderr
 try:
     for c in checks:
         scratch = "/tmp/sv/run/%s-%s-%s" % (cid, mn, c)
         shutil.rmtree(scratch, ignore_errors=True)
         os.makedirs(scratch + "/evidence")
-        env = dict(os.environ, VERIF_REPLAYS_DIR=scratch + "/replays", VERIF_EVIDENCE_DIR=scratch + "/evidence")
+        env = dict(os.environ, VERIF_REPLAYS_DIR=scratch + "/replays", VERIF_EVIDENCE_DIR=scratch + "/evidence", **overlay_env)
         t0 = time.time()
         p = subprocess.run(["/verif/check", c, tier], env=env, capture_output=True, text=True)
         out = p.stdout + p.stderr
@@ -70,14 +90,17 @@ try:
             if "VIOLATION" in l or l.startswith("  ") and "violation" in l.lower():
                 what = l
                 break
-        run = {"check": c, "tier": tier, "seed": os.environ.get("VERIF_SEED", "1"), "exit": p.returncode,
+        run = {"check": c, "tier": tier, "how": "go -overlay of the patched files (scratch worktree)" if OVERLAY else "git -C /repo apply; run; undo", "seed": os.environ.get("VERIF_SEED", "1"), "exit": p.returncode,
                "caught": p.returncode == 1 and bool(viol), "secs": round(time.time() - t0, 1),
                "violation_lines": viol[:3], "tail": out[-1200:]}
         meta["check_runs"].append(run)
         print("%s-%s vs %s %s: exit=%d caught=%s (%.0fs)" % (cid, mn, c, tier, p.returncode, run["caught"], run["secs"]))
 finally:
-    subprocess.run("git -C /repo reset -q --hard && git -C /repo clean -fdq", shell=True)
-    st = subprocess.run("git -C /repo status --porcelain", shell=True, capture_output=True, text=True).stdout.strip()
-    if st:
-        print("WARNING /repo not clean after undo:\n" + st)
+    if OVERLAY:
+        subprocess.run("git -C /repo worktree remove --force %s; rm -rf %s %s" % (wt, wt, ov), shell=True, capture_output=True)
+    else:
+        subprocess.run("git -C /repo reset -q --hard && git -C /repo clean -fdq", shell=True)
+        st = subprocess.run("git -C /repo status --porcelain", shell=True, capture_output=True, text=True).stdout.strip()
+        if st:
+            print("WARNING /repo not clean after undo:\n" + st)
 json.dump(meta, open(os.path.join(dst, "meta.json"), "w"), indent=1, ensure_ascii=False)
